@@ -27,7 +27,7 @@ pub fn self_test_adapters() -> Result<(), String> {
     for _ in 0..400 {
         let (shape, value) = strat.new_tree(&mut runner).map_err(|e| e.to_string())?.current();
         let call = crate::record::record(&Typed(&shape, &value)).map_err(|e| format!("adapter self-test: recording failed: {}", e.0))?;
-        let back = crate::record::call_to_value(&call, &shape).map_err(|e| format!("adapter self-test: {} for {:?}", e, shape))?;
+        let back = crate::record_value::call_to_value(&call, &shape).map_err(|e| format!("adapter self-test: {} for {:?}", e, shape))?;
         if back != value {
             return Err(format!("adapter self-test: {:?} was handed to serde as {:?}", value, back));
         }
@@ -241,4 +241,64 @@ pub fn scratch_need(shape: &Shape, value: &Value) -> usize {
     let mut acc = 0;
     walk(shape, value, &mut acc);
     acc
+}
+
+/// postcard is a compact binary format: both directions must report `is_human_readable() ==
+/// false`, and types that pick their representation by that flag must use the compact one
+/// (std::net addresses as raw octets), through every entry point.
+pub fn check_human_readable_flag(l: &mut crate::runner::Local) -> crate::runner::CaseResult {
+    use crate::dynshape::HrProbe;
+    use crate::runner::fail;
+    use std::net::{IpAddr, Ipv4Addr, Ipv6Addr, SocketAddrV4};
+    let cj = || serde_json::json!({"probe": "human-readable"});
+    l.eval();
+    let b = postcard::to_allocvec(&HrProbe(false)).map_err(|e| fail("hr-flag", format!("{:?}", e), cj()))?;
+    if b != [0] {
+        return Err(fail("hr-flag", "the serializer reports is_human_readable() == true", cj()));
+    }
+    let mut buf = [0u8; 4];
+    if postcard::to_slice(&HrProbe(false), &mut buf).map(|s| s.to_vec()) != Ok(vec![0]) {
+        return Err(fail("hr-flag", "to_slice: serializer reports is_human_readable() == true", cj()));
+    }
+    for (name, got) in [
+        ("from_bytes", postcard::from_bytes::<HrProbe>(&[1]).map(|p| p.0)),
+        ("take_from_bytes", postcard::take_from_bytes::<HrProbe>(&[1, 9]).map(|(p, _)| p.0)),
+        ("from_io", postcard::from_io::<HrProbe, _>((&[1u8][..], &mut [0u8; 4][..])).map(|(p, _)| p.0)),
+        ("from_eio", postcard::from_eio::<HrProbe, _>((&[1u8][..], &mut [0u8; 4][..])).map(|(p, _)| p.0)),
+        ("from_bytes_cobs", postcard::from_bytes_cobs::<HrProbe>(&mut [2u8, 1, 0]).map(|p| p.0)),
+    ] {
+        l.eval();
+        if got != Ok(false) {
+            return Err(fail("hr-flag", format!("{}: the deserializer reports is_human_readable() = {:?}", name, got), cj()));
+        }
+    }
+    // representation-by-flag types: compact on the wire, and they come back
+    let v4 = Ipv4Addr::new(127, 0, 0, 1);
+    let bytes = postcard::to_allocvec(&v4).map_err(|e| fail("hr-flag", format!("{:?}", e), cj()))?;
+    if bytes != [127, 0, 0, 1] {
+        return Err(fail("hr-flag", format!("Ipv4Addr 127.0.0.1 encodes as {:?}, compact form is [127,0,0,1]", bytes), cj()));
+    }
+    if postcard::from_bytes::<Ipv4Addr>(&bytes) != Ok(v4) {
+        return Err(fail("hr-flag", "Ipv4Addr does not decode from its compact form", cj()));
+    }
+    let vals: Vec<IpAddr> = vec![IpAddr::V4(v4), IpAddr::V6(Ipv6Addr::LOCALHOST), IpAddr::V6(Ipv6Addr::new(0x2001, 0xdb8, 0, 0, 0, 0xff00, 0x42, 0x8329))];
+    for v in vals {
+        l.eval();
+        let b = postcard::to_allocvec(&v).map_err(|e| fail("hr-flag", format!("{:?}", e), cj()))?;
+        let want_len = match v {
+            IpAddr::V4(_) => 1 + 4,
+            IpAddr::V6(_) => 1 + 16,
+        };
+        if b.len() != want_len || postcard::from_bytes::<IpAddr>(&b) != Ok(v) {
+            return Err(fail("hr-flag", format!("IpAddr {} encodes to {} bytes ({:?}) / does not round-trip", v, b.len(), postcard::from_bytes::<IpAddr>(&b)), cj()));
+        }
+    }
+    let sa = SocketAddrV4::new(Ipv4Addr::new(10, 0, 0, 7), 8080);
+    let b = postcard::to_allocvec(&sa).map_err(|e| fail("hr-flag", format!("{:?}", e), cj()))?;
+    if postcard::from_bytes::<SocketAddrV4>(&b) != Ok(sa) || b[..4] != [10, 0, 0, 7] {
+        return Err(fail("hr-flag", format!("SocketAddrV4 encodes as {:?} / does not round-trip", b), cj()));
+    }
+    l.nontrivial(&("hr-flag", 1u8));
+    l.nontrivial(&("hr-flag", 2u8));
+    Ok(())
 }
